@@ -625,7 +625,7 @@ func (svr *Service) RegisterWorkConn(workConn net.Conn, newMsg *msg.NewWorkConn)
 	xl := netpkg.NewLogFromConn(workConn)
 	ctl, exist := svr.ctlManager.GetByID(newMsg.RunID)
 	if !exist {
-		verifhook.At("svc.workconn", "run_id", newMsg.RunID, "found", false, "ctl", "", "verify_err", "")
+		verifhook.At("svc.workconn", "w", workConn.RemoteAddr().String(), "run_id", newMsg.RunID, "found", false, "ctl", "", "verify_err", "")
 		xl.Warnf("No client control found for run id [%s]", newMsg.RunID)
 		return fmt.Errorf("no client control found for run id [%s]", newMsg.RunID)
 	}
@@ -646,13 +646,13 @@ func (svr *Service) RegisterWorkConn(workConn net.Conn, newMsg *msg.NewWorkConn)
 	}
 	if err != nil {
 		xl.Warnf("invalid NewWorkConn with run id [%s]", newMsg.RunID)
-		verifhook.At("svc.workconn", "run_id", newMsg.RunID, "found", true, "ctl", verifhook.ID(ctl), "verify_err", err)
+		verifhook.At("svc.workconn", "w", workConn.RemoteAddr().String(), "run_id", newMsg.RunID, "found", true, "ctl", verifhook.ID(ctl), "verify_err", err)
 		_ = msg.WriteMsg(workConn, &msg.StartWorkConn{
 			Error: util.GenerateResponseErrorString("invalid NewWorkConn", err, lo.FromPtr(svr.cfg.DetailedErrorsToClient)),
 		})
 		return fmt.Errorf("invalid NewWorkConn with run id [%s]", newMsg.RunID)
 	}
-	verifhook.At("svc.workconn", "run_id", newMsg.RunID, "found", true, "ctl", verifhook.ID(ctl), "verify_err", "")
+	verifhook.At("svc.workconn", "w", workConn.RemoteAddr().String(), "run_id", newMsg.RunID, "found", true, "ctl", verifhook.ID(ctl), "verify_err", "")
 	return ctl.RegisterWorkConn(workConn)
 }
 
